@@ -1,12 +1,16 @@
 """C16 template application edits exactly what the template names.
 
-proof      : coq/props/C16.v (get_deleted specification proved in full for the code after fix: b90326c; frame / freshness /
-             named atoms and bonds / identity theorems for the structural part of _patcher; fix_mapping_overlap disjointness)
-tie        : BaseReactor._get_deleted (result AND the local sets `delete` / `keep`, read from the frame of the real call),
-             BaseReactor._patcher (structure, not stereo) and fix_mapping_overlap are run on real Transformer / Reactor
-             objects and compared with the Coq model evaluated by vm_compute
-search     : independent oracles on the real code (connected components by union-find / RDKit, identity templates,
-             valence, unique numbers, renumbering / reactant order independence)
+proof      : coq/props/C16.v: _to_delete of BaseReactor.__init__ and "unless masked"; get_deleted specification proved in
+             full for the code after fix: b90326c (never raises, returns exactly the matched-and-unkept atoms + detached
+             pieces; order independent); _patcher never raises on a real match, frame / freshness / named atoms and bonds /
+             identity theorems for its structural part; fix_mapping_overlap disjointness
+tie        : BaseReactor.__init__ (_to_delete), BaseReactor._get_deleted (result AND the local sets `delete` / `keep`, read
+             from the frame of the real call), BaseReactor._patcher (structure, not stereo) and fix_mapping_overlap are run on
+             real Transformer / Reactor objects and compared with the Coq model evaluated by vm_compute; a disagreement starts
+             a directed search with the oracles below on and around the disagreeing inputs
+search     : independent oracles on the real code (connected components by union-find / RDKit, read-out of every product
+             against the template, sign of untouched stereocentres, identity templates, valence, unique numbers, duplicates,
+             spectator molecules, renumbering / reactant order independence, one-shot and exhaustive Reactor modes)
 """
 import itertools
 import random
@@ -189,6 +193,16 @@ class Batch:
                 if log:
                     logs.append(log)
         return ok_all, sorted(failing), '\n'.join(logs)
+
+
+def sparse_renumber(mol, rng):
+    """a copy with random, non-contiguous atom numbers (so that counts and maxima differ)"""
+    nums = list(mol._atoms)
+    new = rng.sample(range(1, 3 * len(nums) + 6), len(nums))
+    m = mol.copy()
+    m.remap(dict(zip(nums, [x + 10 ** 6 for x in new])))
+    m.remap({x + 10 ** 6: x for x in new})
+    return m
 
 
 def bonds_of(mol):
@@ -749,6 +763,75 @@ def corr_overlap(ck):
 
 
 # ---------------------------------------------------------------------------------------------------------------------
+# correspondence 4: the number-collision remapping in Reactor._single_stage
+
+STAGE_TEMPLATES = [
+    (('[C:1]=[O:2]', '[N;D1:3]'), ('[A:1](-[A:2])-[A:3]-[C:7](=[O:8])-[C:9]',),
+     [('CC=O', 'NC', 'CCCCCCCCCCCC'), ('O=Cc1ccccc1', 'NCCO', 'CCCCCCCCCCCCCCCC', 'OO'), ('CC(C)=O', 'NCC'), ('CC=O', 'NC', 'C')]),
+    (('[C:1](=[O:2])[O;D1:3]', '[N;D1:4][C:5]'), ('[A:1](=[A:2])[A:4][A:5].[A:3]',),
+     [('CC(=O)O', 'NCC', 'c1ccccc1CCCCCC'), ('CC(=O)O', 'NC', 'CCCCCCCC', 'CCCCCCCCCC')]),
+    (('[C:1][Br:2]', '[O;D1:3][C:4]'), ('[A:1][A:3][A:4][Na:9]', '[Br-:2].[K+:8]'), [('CCBr', 'OC', 'CCCCCCCCC'), ('BrCCBr', 'OCC', 'O')]),
+    (('[C:1]#[N:2]',), ('[A:1](=[A:2])[O:3][C:4]',), [('CC#N', 'CCCCCCCC'), ('N#CCC#N', 'CC', 'CCC'), ('N#CC', 'CC#N')]),
+]
+
+
+def corr_stage(ck):
+    """Reactor._single_stage(chosen, ignored): for every match the product of _patcher (obtained by calling _patcher ourselves on
+    the same union and match) is renumbered where it collides with the atoms of the molecules that take no part"""
+    from itertools import permutations
+    from chython import smiles, smarts
+    from chython.reactor import Reactor
+    from chython.reactor.reactor import fix_mapping_overlap
+    from chython._functions import lazy_product
+    rng = random.Random(f'{ck.seed}:c16stage')
+    batch = Batch()
+    for pats, prods, rsets in STAGE_TEMPLATES:
+        rx = Reactor(tuple(smarts(x) for x in pats), tuple(smarts(x) for x in prods), fix_aromatic_rings=False, automorphism_filter=False)
+        for rs, variant in itertools.product(rsets, range(4 if ck.tier == 'quick' else 25)):
+            ms = [smiles(x) for x in rs]
+            if variant:      # variant 0: as read (every molecule numbered from 1); others: random contiguous / sparse numberings
+                ms = [corpus.renumber(m, rng) if variant % 2 else sparse_renumber(m, rng) for m in ms]
+                rs = rs + (variant,)
+            structures = fix_mapping_overlap(ms)
+            idx = range(len(structures))
+            for chosen_i in itertools.islice(permutations(idx, len(pats)), 6 if ck.tier == 'quick' else 60):
+                chosen = [structures[i] for i in chosen_i]
+                ignored = {x for i in idx if i not in chosen_i for x in structures[i]}
+                try:
+                    outs = list(itertools.islice(rx._single_stage(chosen, ignored), 6))
+                except Exception as e:
+                    ck.counterexample(f'single-stage-raises:{pats}:{rs}:{chosen_i}', f'Reactor._single_stage raises {type(e).__name__}', {'patterns': pats, 'products': prods, 'reactants': rs},
+                                      f'{type(e).__name__}: {e}', 'products', 'no exception expected')
+                    continue
+                if not outs:
+                    continue
+                united = reduce(or_, chosen)
+                for k, match in enumerate(itertools.islice(lazy_product(*(x.get_mapping(y, automorphism_filter=False) for x, y in zip(rx._patterns, chosen))), len(outs))):
+                    mapping = match[0].copy()
+                    for mm in match[1:]:
+                        mapping.update(mm)
+                    new = list(rx._patcher(united, mapping))
+                    got = [x for p in outs[k] for x in p]
+                    describe = {'patterns': pats, 'products': prods, 'reactants': rs, 'chosen': chosen_i, 'patched_numbers': new, 'ignored': sorted(ignored)}
+                    batch.add(f'stage_res_eqb (stage_remap {zl(new)} {zl(sorted(ignored))}) (Ok {zl(sorted(got))})', describe)
+                    collided = bool(set(new) & ignored)
+                    ck.count('stage:' + ('collision' if collided else 'no collision') + (':split' if len(outs[k]) > 1 else ''))
+                    ck.case(('stage', pats, rs, chosen_i, k), nontrivial=collided)
+                    # property-level read-out, independent of the model
+                    if len(got) != len(set(got)) or set(got) & ignored or len(got) != len(new) or not (set(new) - ignored) <= set(got):
+                        ck.counterexample(f'single-stage-numbers:{pats}:{rs}:{chosen_i}:{k}',
+                                          'products of one stage repeat a number, share one with a molecule that takes no part, or renumber an atom that did not collide',
+                                          describe, sorted(got), 'unique numbers, disjoint from the ignored molecules, non-colliding atoms unchanged', 'count')
+    ok, failing, log = batch.run('c16st')
+    ck.oblige('correspondence: atom numbers yielded by Reactor._single_stage == Coq stage_remap of the _patcher product (as sets)',
+              ok and not failing, 'correspondence', log or str([batch.meta[i] for i in failing[:5]]))
+    ck.extra['stage_cases'] = len(batch.cases)
+    if not ok or failing:
+        ck.unchecked('correspondence Reactor.stage_remap vs chython/reactor/reactor.py:_single_stage', log[-1500:], [repr(batch.meta[i]) for i in failing[:20]])
+    return ok and not failing
+
+
+# ---------------------------------------------------------------------------------------------------------------------
 # search: property-level oracles on the real code, independent of the model
 
 def search_deleted_exhaustive(ck):
@@ -1020,7 +1103,17 @@ def search_identity(ck):
                         ck.count('search:identity-template')
                         # stereo labels are relative to the neighbour order, which the patcher changes: they are compared
                         # through == / the canonical string, never as raw attribute values
-                        if not (pr == ref and str(pr) == str(ref) and struct_sig(pr) == struct_sig(ref)):
+                        sig_p, sig_r = struct_sig(pr), struct_sig(ref)
+                        if raw and sig_p != sig_r:
+                            # fix_aromatic_rings=False (not the default) leaves the rings aromatic: an aromatic atom that the
+                            # replacement re-types gets no hydrogen count from calc_implicit (None) until kekule()/thiele() run;
+                            # that is the documented price of the raw mode, not a difference of structure
+                            arom = {x for (x, y), o in sig_r[1].items() if o == 4} | {y for (x, y), o in sig_r[1].items() if o == 4}
+                            fixed = {k: (v[:4] + (sig_r[0][k][4],) if k in arom and k in sig_r[0] and v[4] is None else v) for k, v in sig_p[0].items()}
+                            if (fixed, sig_p[1]) == sig_r:
+                                ck.count('search:identity-raw-mode-aromatic-hydrogens-left-uncomputed')
+                                sig_p = sig_r
+                        if not (pr == ref and str(pr) == str(ref) and sig_p == sig_r):
                             ck.counterexample(f'identity:{pat}>>{rep}:{raw}:{smi}', 'identity template does not return the input structure',
                                               {'smiles': smi, 'pattern': pat, 'replacement': rep, 'fix_aromatic_rings': not raw}, str(pr), str(ref),
                                               '==, canonical string and atom-by-atom comparison with the input',
@@ -1124,7 +1217,7 @@ def search_reactor_synthetic(ck):
                     ms = [smiles(x) for x in rs]
                     out = run(ms)
                     rev = run([smiles(x) for x in reversed(rs)])
-                    ren = run([corpus.renumber(smiles(x), rng) for x in rs])
+                    ren = run([sparse_renumber(smiles(x), rng) for x in rs])
                 except Exception as e:
                     ck.counterexample(f'reactor-synthetic-raises:{tname}:{rs}', f'Reactor raises {type(e).__name__} on valid reactants', {'template': tname, 'reactants': rs},
                                       f'{type(e).__name__}: {e}', 'reactions', 'no exception expected', replay_py=rp)
@@ -1166,7 +1259,7 @@ def run(ck):
     ck.trusted += ['correspondence runner harness/checks/C16.py + harness/coqcases.py + harness/coqmol.py', 'CachedMethods shim harness/boot.py',
                    'CPython 3.12.1', 'RDKit 2026.3 (search only: GetMolFrags as second component oracle)']
     ck.assumptions += [
-        'coq/model/Reactor.v is a hand-written restatement of _get_deleted, of the structural part of _patcher and of fix_mapping_overlap; '
+        'coq/model/Reactor.v is a hand-written restatement of BaseReactor.__init__ (_to_delete), _get_deleted, the structural part of _patcher and fix_mapping_overlap; '
         'tie = correspondence on every graph with <= 4 atoms x matched set x to-delete subset, random cyclic graphs, corpus molecules, '
         'template matches and malformed mappings',
         'the iteration order of the Python set to_delete is an input of the model (the runner passes the observed order); the theorems '
@@ -1176,9 +1269,10 @@ def run(ck):
         f'_get_deleted is compared with the model function `{MODEL_FUNCTION}` (the code after fix: b90326c, for which get_deleted_spec is PROVED)']
     ck.extra['rule'] = ('correspondence: (graph, matched atoms, to-delete subset) exhaustively for <= 4 atoms, random graphs with 5..9 atoms incl. masked atoms, '
                         'bridged/corpus molecules with random connected matched sets; non-trivial = the call returned more atoms than the matched-and-unkept ones '
-                        '(a fragment was deleted). patcher: synthetic templates covering each branch + every deprotection template x molecules x matches; '
-                        'non-trivial = the call returned a product. search: union-find / RDKit component oracle, template read-out, identity templates, '
-                        'valence, renumbering and reactant order; every case distinct')
+                        '(a fragment was deleted). to_delete: every template the check builds + every built-in one. patcher: synthetic templates covering each branch '
+                        '(incl. charge / radical / isotope re-typing) + every deprotection template x molecules x matches + multi-reactant unions; '
+                        'non-trivial = the call returned a product. search: union-find / RDKit component oracle, template read-out, untouched stereocentres, identity '
+                        'templates, valence, renumbering and reactant order, synthetic Reactors with spectators in both modes; every case distinct')
     import time
     steps = {}
 
@@ -1192,6 +1286,7 @@ def run(ck):
     tied = timed('corr get_deleted', corr_get_deleted) and tied
     tied = timed('corr patcher', corr_patcher) and tied
     tied = timed('corr overlap', corr_overlap) and tied
+    tied = timed('corr single_stage remap', corr_stage) and tied
     timed('search get_deleted 5-atom graphs', search_deleted_exhaustive)
     timed('search templates', search_templates)
     timed('search identity', search_identity)
